@@ -248,7 +248,7 @@ fn check_point(r: &Rec, hol: &ContextHolidays, loc: &Option<TzLocation<Tz>>, pt:
     Ok(())
 }
 
-fn check_record(rec: &Value, acc: &mut Acc) {
+pub fn check_record(rec: &Value, acc: &mut Acc) {
     let expr = rec.get("expr").and_then(|v| v.as_str()).unwrap_or("");
     let part = rec.get("part").and_then(|v| v.as_str()).unwrap_or("");
     let null = Value::Null;
